@@ -305,9 +305,13 @@ def export_slice(slize: Slice) -> vckt.Slice:
 
 
 def export_concat(concat: Concat) -> vckt.Concat:
-    """Export (potentially recursive) Signal Concatenations"""
+    """Export (potentially recursive) Signal Concatenations
+
+    Hdl21 `Concat`s list their least-significant part first (Python sequence order).
+    VLSIR `Concat`s are read most-significant part first by every `vlsirtools` netlister,
+    e.g. Verilog `{a, b}` and the `p_1 p_0` order of scalarized SPICE buses. Reverse the order here."""
     pconc = vckt.Concat()
-    for part in concat.parts:
+    for part in reversed(concat.parts):
         pconc.parts.append(export_connection_target(part))
     return pconc
 
